@@ -256,7 +256,7 @@ func findRefSegMetaFromTime(a *asset, rep *RepData, time uint64, cfg *ResponseCo
 	dur := uint32(refRep.Segments[relNr].EndTime - refRep.Segments[relNr].StartTime)
 
 	// Check interval validity
-	segAvailTimeS := float64(refEndTime) / float64(refRep.MediaTimescale)
+	segAvailTimeS := float64(refEndTime)/float64(refRep.MediaTimescale) + float64(cfg.StartTimeS)
 	nowS := float64(nowMS) * 0.001
 	err := CheckTimeValidity(segAvailTimeS, nowS, float64(*cfg.TimeShiftBufferDepthS), cfg.getAvailabilityTimeOffsetS())
 	if err != nil {
